@@ -34,7 +34,7 @@ specs["C01"] = dict(prefixes=["C01.", "no-panic", "no-deadlock"], runs=[
   {"pkg": "z", "fn": "vfH_C01_KeyToHash", "tiers": QT},
   burst(Q, ops=2, menu=menu("set0", "set1", "get0", "get1"), collide=1, maxcost=2, setbuf=2),
   burst(T, ops=3, menu=menu("set0", "set1", "get0", "get1"), collide=1, maxcost=2, setbuf=2),
-  burst(T, ops=3, menu=menu("set0", "set1", "get0", "get1", "del1"), collide=1, maxcost=1, setbuf=1, pre=1),
+  burst(T, ops=2, menu=menu("set0", "set1", "get0", "get1", "del1"), collide=1, maxcost=1, setbuf=1, pre=1),
   {"pkg": "root", "fn": "vfH_C01_Race2", "params": {"preempt": 3}, "tiers": Q},
   {"pkg": "root", "fn": "vfH_C01_Race2", "params": {"preempt": 5}, "tiers": T},
  ], witnesses=["vfH_Store_Step:end", "vfH_C01_KeyToHash:end", "vfH_Burst:end", "vfH_C01_Race2:end"],
@@ -47,10 +47,10 @@ specs["C01"] = dict(prefixes=["C01.", "no-panic", "no-deadlock"], runs=[
 
 specs["C02"] = dict(prefixes=["C02.", "no-panic", "no-deadlock"], runs=[
   {"pkg": "root", "fn": "vfH_Store_Step", "params": {"entries": 2}, "tiers": QT},
-  burst(Q, ops=3, menu=menu("set0", "set1", "get0", "del0"), maxcost=1, setbuf=2, sketch=1),
-  burst(T, ops=4, menu=menu("set0", "set1", "get0", "del0"), maxcost=1, setbuf=2, sketch=1),
+  burst(Q, ops=2, menu=menu("set0", "set1", "get0", "del0"), maxcost=1, setbuf=2, sketch=1, pre=1),
+  burst(T, ops=3, menu=menu("set0", "set1", "get0", "del0"), maxcost=1, setbuf=2, sketch=1, pre=1),
   burst(QT, ops=2, menu=menu("set0", "get0", "clear"), maxcost=2, setbuf=2, pre=1),
-  burst(T, ops=3, menu=menu("set0", "set1", "get0", "del0", "clear"), maxcost=1, setbuf=1, pre=1, sketch=1),
+  burst(T, ops=2, menu=menu("set0", "set1", "get0", "clear"), maxcost=1, setbuf=1, pre=1, sketch=1),
   dict(burst(T, ops=2, menu=menu("set0", "get0", "del0"), maxcost=1, setbuf=2, sketch=1), twin=True),
  ], witnesses=["vfH_Store_Step:end", "vfH_Burst:end"],
  bounds=["Update/Del/Clear of a shard return exactly what they detached (arbitrary shard state, 2 entries)",
@@ -63,9 +63,9 @@ specs["C03"] = dict(prefixes=["C03.", "C09.fits", "no-panic"], runs=[
   {"pkg": "root", "fn": "vfH_Policy_Add", "params": {"residents": 4}, "tiers": T, "fallback": "cvc5-int,z3-new"},
   {"pkg": "root", "fn": "vfH_Policy_Add", "params": {"residents": 6}, "tiers": T, "fallback": "cvc5-int,z3-new", "max_paths": 60000},
   {"pkg": "root", "fn": "vfH_Policy_Ops", "params": {"residents": 3}, "tiers": QT, "fallback": "cvc5-int,z3-new"},
-  burst(Q, ops=3, menu=menu("set0", "set1", "set2", "del0"), maxcost=2, setbuf=2, sketch=1),
-  burst(T, ops=4, menu=menu("set0", "set1", "set2", "del0", "wait"), maxcost=2, setbuf=2, sketch=1),
-  burst(T, ops=3, menu=menu("set0", "set1", "set2", "heavy0"), maxcost=2, setbuf=2, sketch=1),
+  burst(Q, ops=2, menu=menu("set1", "set2", "del0"), maxcost=2, setbuf=2, sketch=1, pre=2),
+  burst(T, ops=3, menu=menu("set0", "set1", "set2", "del0"), maxcost=2, setbuf=2, sketch=1, pre=1),
+  burst(T, ops=2, menu=menu("set0", "set1", "set2", "heavy0"), maxcost=2, setbuf=2, sketch=1, pre=1),
  ], witnesses=["vfH_Policy_Add:end", "vfH_Policy_Ops:end", "vfH_Burst:end"],
  bounds=["one defaultPolicy.Add(key, cost) from an ARBITRARY policy state with 2..4 (quick: 3) resident keys, arbitrary costs in [0, 2^40], arbitrary MaxCost in (0, 2^40], arbitrary frequency estimates (tinyLFU.Estimate replaced by an uninterpreted function into [0,16]), every enumeration order of the sampling map (first enumeration by symmetry)",
   "Del / Update / Clear / UpdateMaxCost / Cap from the same arbitrary states",
@@ -74,10 +74,11 @@ specs["C03"] = dict(prefixes=["C03.", "C09.fits", "no-panic"], runs=[
  assumptions=A_CACHE + ["tinyLFU.Estimate is summarised by an uninterpreted function est(key) in [0,16] in the policy step harnesses (the policy only reads estimates under its lock)"])
 
 specs["C04"] = dict(prefixes=["C04.", "no-panic", "no-deadlock"], runs=[
-  burst(Q, ops=3, menu=menu("set0", "set1", "del0"), maxcost=1, setbuf=1, sketch=1, final=1),
-  burst(Q, ops=2, menu=menu("set0", "set1", "del0", "get0"), maxcost=1, setbuf=2, sketch=1, final=2, pre=1),
-  burst(T, ops=4, menu=menu("set0", "set1", "del0"), maxcost=1, setbuf=1, sketch=1, final=1),
-  burst(T, ops=3, menu=menu("set0", "set1", "set2", "del0", "get0", "wait"), maxcost=2, setbuf=2, sketch=1, final=2, pre=1),
+  burst(Q, ops=1, menu=menu("set0", "set1", "del0"), maxcost=1, setbuf=1, sketch=1, final=1, pre=1),
+  burst(Q, ops=2, menu=menu("set0", "set1", "del0"), maxcost=1, setbuf=2, sketch=1, final=2, pre=1),
+  burst(T, ops=2, menu=menu("set0", "set1", "del0"), maxcost=1, setbuf=1, sketch=1, final=1, pre=1),
+  burst(T, ops=3, menu=menu("set0", "set1", "del0"), maxcost=1, setbuf=2, sketch=1, final=2, pre=1),
+  burst(T, ops=3, menu=menu("set0", "set2", "get0", "wait"), maxcost=2, setbuf=2, sketch=1, final=2, pre=1),
   burst(T, ops=2, menu=menu("set0", "set1", "clear"), maxcost=1, setbuf=2, sketch=1, final=2),
   dict(burst(T, ops=2, menu=menu("set0", "set1"), maxcost=1, setbuf=1, final=1), twin=True),
   {"pkg": "root", "fn": "vfH_C04_ShouldUpdate", "tiers": QT},
@@ -97,8 +98,9 @@ specs["C05"] = dict(prefixes=["C05.", "no-panic", "no-deadlock"], runs=[
  outside=O_CACHE + ["more than 2 earlier writes"], assumptions=A_CACHE)
 
 specs["C06"] = dict(prefixes=["C06.", "no-panic", "no-deadlock"], runs=[
-  {"pkg": "root", "fn": "vfH_C06_Faithful", "params": {"pre": 1, "setbuf": 4}, "tiers": QT},
-  {"pkg": "root", "fn": "vfH_C06_Faithful", "params": {"pre": 2, "setbuf": 2, "second": 1}, "tiers": T},
+  {"pkg": "root", "fn": "vfH_C06_Faithful", "params": {"pre": 1, "setbuf": 4, "others": 2, "second": 0}, "tiers": Q},
+  {"pkg": "root", "fn": "vfH_C06_Faithful", "params": {"pre": 1, "setbuf": 4, "others": 4, "second": 1}, "tiers": T},
+  {"pkg": "root", "fn": "vfH_C06_Faithful", "params": {"pre": 2, "setbuf": 2, "others": 3, "second": 1}, "tiers": T},
   {"pkg": "root", "fn": "vfH_C06_FastPath", "params": {"residents": 3}, "tiers": QT, "fallback": "cvc5-int,z3-new"},
  ], witnesses=["vfH_C06_Faithful:new", "vfH_C06_Faithful:overwrite", "vfH_C06_Faithful:resident", "vfH_C06_FastPath:end"],
  bounds=["one client; pre-state with 1..2 residents; (a) Set of a key neither resident nor pending with arbitrary cost 0..255 (MaxCost 2^30), other activity, Wait, Get; (b) overwrite of a resident key then immediate Get; (c) residents stay while other keys are written; every interleaving with the applier",
@@ -120,8 +122,8 @@ specs["C09"] = dict(prefixes=["C09.", "no-panic"], runs=[
  assumptions=A_ENV + ["tinyLFU.Estimate summarised by an uninterpreted function est(key) in [0,16]", "first enumeration of the sampling map taken in list order by symmetry of the fresh resident symbols (runs with symmetry=0 fork over all orders)"])
 
 specs["C13"] = dict(prefixes=["C13.", "no-panic", "no-deadlock"], runs=[
-  burst(Q, ops=3, menu=menu("set0", "set1", "set2", "del0"), maxcost=2, setbuf=2, sketch=1, iter=1),
-  burst(T, ops=4, menu=menu("set0", "set1", "set2", "del0", "del1"), maxcost=2, setbuf=1, sketch=1, iter=1),
+  burst(Q, ops=2, menu=menu("set1", "set2", "del0"), maxcost=1, setbuf=2, sketch=1, iter=1, pre=1),
+  burst(T, ops=3, menu=menu("set0", "set1", "set2", "del0", "del1"), maxcost=2, setbuf=1, sketch=1, iter=1, pre=1),
   burst(QT, ops=2, menu=menu("set0", "set1", "del0", "clear"), maxcost=1, setbuf=2, sketch=1, pre=1, iter=1),
   burst(Q, ops=1, menu=menu("set0", "set1", "del0"), maxcost=2, setbuf=2, pre=1, final=1),
   burst(T, ops=2, menu=menu("set0", "set1", "del0"), maxcost=2, setbuf=2, pre=1, final=1),
@@ -135,7 +137,7 @@ specs["C15"] = dict(prefixes=["C15.", "C04.", "no-panic", "no-deadlock"], runs=[
   burst(T, ops=2, menu=menu("set0", "set1", "del0", "get0"), maxcost=2, setbuf=2, final=1, pre=1, metrics=1),
   burst(Q, ops=2, menu=menu("set0", "set1", "del0", "get0"), maxcost=2, setbuf=2, final=2, pre=1),
   burst(T, ops=2, menu=menu("set0", "set1", "del0", "wait"), maxcost=1, setbuf=1, final=1, pre=1, metrics=1, sketch=1),
-  burst(T, ops=3, menu=menu("set0", "set1", "del0", "get0", "clear"), maxcost=1, setbuf=2, final=2, pre=1, sketch=1),
+  burst(T, ops=2, menu=menu("set0", "set1", "del0", "clear"), maxcost=1, setbuf=2, final=2, pre=1, sketch=1),
   {"pkg": "root", "fn": "vfH_C15_WaiterReleased", "tiers": QT},
  ], witnesses=["vfH_Burst:end", "vfH_C15_WaiterReleased:end"],
  bounds=["pre-state with one resident plus a burst of 2 (quick) / 3 (thorough) calls leaving buffered new items, overwrites and tombstones, then Clear() or Close(); afterwards: store, policy empty, capacity and metrics reset, every accepted value released exactly once, a new Set+Wait+Get works (Clear) / every operation is an inert no-op and no goroutine of the cache is left (Close; Close and Clear repeated)", "a goroutine blocked in Wait while Clear runs is released"],
@@ -143,10 +145,10 @@ specs["C15"] = dict(prefixes=["C15.", "C04.", "no-panic", "no-deadlock"], runs=[
 
 specs["C17"] = dict(prefixes=["C17.", "no-panic", "no-deadlock"], runs=[
   {"pkg": "root", "fn": "vfH_C17_Cells", "tiers": QT},
-  burst(Q, ops=3, menu=menu("set0", "set1", "get0", "del0"), maxcost=2, setbuf=2, sketch=1, metrics=1),
+  burst(Q, ops=2, menu=menu("set1", "set2", "get0", "del0"), maxcost=2, setbuf=2, sketch=1, metrics=1, pre=2),
   burst(Q, ops=2, menu=menu("set0", "heavy0", "get1", "set1"), maxcost=3, setbuf=1, metrics=1, pre=1),
-  burst(T, ops=4, menu=menu("set0", "set1", "get0", "del0"), maxcost=2, setbuf=2, sketch=1, metrics=1),
-  burst(T, ops=3, menu=menu("set0", "heavy0", "get1", "set1", "set2"), maxcost=3, setbuf=1, metrics=1, pre=1, sketch=1),
+  burst(T, ops=3, menu=menu("set0", "set1", "get0", "del0"), maxcost=2, setbuf=2, sketch=1, metrics=1, pre=1),
+  burst(T, ops=3, menu=menu("set0", "heavy0", "get1", "set1"), maxcost=3, setbuf=1, metrics=1, pre=1, sketch=1),
  ], witnesses=["vfH_C17_Cells:end", "vfH_Burst:end"],
  bounds=["Metrics.add/get/Clear on the real 256-cell layout for every metric type and an arbitrary hash (fork over the 25 cell indices)",
   "bursts of 2..3 (quick) / 3..4 (thorough) calls from Set (cost 1), heavier overwrite (cost 2), Get, Del with metrics on, MaxCost 2..3, write buffer 1..2, arbitrary sketch contents; after Wait: Hits+Misses = Gets, KeysAdded-KeysEvicted = residents, CostAdded-CostEvicted = MaxCost-RemainingCost, SetsDropped = refused new-key Sets, GetsKept+GetsDropped <= Gets"],
@@ -158,7 +160,8 @@ specs["C07"] = dict(prefixes=["C07.", "no-panic", "no-deadlock"], runs=[
   {"pkg": "root", "fn": "vfH_Store_TTLRead", "tiers": QT, "fallback": "cvc5-int,z3-new"},
   {"pkg": "root", "fn": "vfH_C07_SetGetTTL", "params": {"grid": 0}, "tiers": QT, "fallback": "cvc5-int,z3-new", "short_ms": 1000},
   {"pkg": "root", "fn": "vfH_C07_SetGetTTL", "params": {"grid": 1}, "tiers": QT, "fallback": "cvc5-int,z3-new", "short_ms": 1000},
-  {"pkg": "root", "fn": "vfH_C07_SetGetTTL", "params": {"grid": 4}, "tiers": QT, "fallback": "cvc5-int,z3-new", "short_ms": 1000},
+  {"pkg": "root", "fn": "vfH_C07_SetGetTTL", "params": {"grid": 4, "preempt": 2}, "tiers": Q, "fallback": "cvc5-int,z3-new", "short_ms": 1000},
+  {"pkg": "root", "fn": "vfH_C07_SetGetTTL", "params": {"grid": 4}, "tiers": T, "fallback": "cvc5-int,z3-new", "short_ms": 1000},
   {"pkg": "root", "fn": "vfH_C07_SetGetTTL", "params": {"grid": 2}, "tiers": T, "fallback": "cvc5-int,z3-new", "short_ms": 1000},
   {"pkg": "root", "fn": "vfH_C07_SetGetTTL", "params": {"grid": 3}, "tiers": T, "fallback": "cvc5-int,z3-new", "short_ms": 1000},
   {"pkg": "root", "fn": "vfH_C07_SetGetTTL", "params": {"grid": 5}, "tiers": T, "fallback": "cvc5-int,z3-new", "short_ms": 1000},
@@ -202,10 +205,13 @@ specs["C10"] = dict(prefixes=["C10.", "no-panic"], runs=[
  assumptions=A_Z)
 
 specs["C11"] = dict(prefixes=["C11.", "no-panic"], runs=[
-  {"pkg": "z", "fn": "vfH_C11_Buffer", "params": {"ops": 2, "maxlen": 40, "cap": 64}, "tiers": QT},
+  {"pkg": "z", "fn": "vfH_C11_Buffer", "params": {"ops": 2, "maxlen": 8, "cap": 64, "menu": 11}, "tiers": Q},
+  {"pkg": "z", "fn": "vfH_C11_Buffer", "params": {"ops": 1, "maxlen": 70, "cap": 64}, "tiers": QT},
+  {"pkg": "z", "fn": "vfH_C11_Buffer", "params": {"ops": 2, "maxlen": 40, "cap": 64}, "tiers": T},
   {"pkg": "z", "fn": "vfH_C11_Buffer", "params": {"ops": 3, "maxlen": 40, "cap": 64, "menu": 7}, "tiers": T},
   {"pkg": "z", "fn": "vfH_C11_Buffer", "params": {"ops": 3, "maxlen": 24, "cap": 64}, "tiers": T},
-  {"pkg": "z", "fn": "vfH_C11_Slices", "params": {"slices": 3, "maxlen": 3}, "tiers": QT},
+  {"pkg": "z", "fn": "vfH_C11_Slices", "params": {"slices": 2, "maxlen": 2}, "tiers": Q},
+  {"pkg": "z", "fn": "vfH_C11_Slices", "params": {"slices": 3, "maxlen": 3}, "tiers": T},
   {"pkg": "z", "fn": "vfH_C11_Slices", "params": {"slices": 4, "maxlen": 2}, "tiers": T},
   {"pkg": "z", "fn": "vfH_C11_MaxSize", "tiers": QT},
   {"pkg": "z", "fn": "vfH_C11_Sort", "params": {"slices": 3}, "tiers": QT},
@@ -238,7 +244,8 @@ specs["C14"] = dict(prefixes=["C14.", "no-panic", "no-deadlock"], runs=[
   {"pkg": "root", "fn": "vfH_C14_Buckets", "tiers": QT, "fallback": "cvc5-int,z3-new"},
   {"pkg": "root", "fn": "vfH_C14_Index", "tiers": QT, "fallback": "cvc5-int,z3-new"},
   {"pkg": "root", "fn": "vfH_C14_Sweep", "params": {"rewrite": 0, "ticks": 1, "pre": 1}, "tiers": QT, "fallback": "cvc5-int,z3-new", "short_ms": 1000},
-  {"pkg": "root", "fn": "vfH_C14_Sweep", "params": {"rewrite": 0, "ticks": 2, "pre": 0}, "tiers": QT, "fallback": "cvc5-int,z3-new", "short_ms": 1000},
+  {"pkg": "root", "fn": "vfH_C14_Sweep", "params": {"rewrite": 0, "ticks": 2, "pre": 0, "preempt": 3}, "tiers": Q, "fallback": "cvc5-int,z3-new", "short_ms": 1000},
+  {"pkg": "root", "fn": "vfH_C14_Sweep", "params": {"rewrite": 0, "ticks": 2, "pre": 0}, "tiers": T, "fallback": "cvc5-int,z3-new", "short_ms": 1000},
   {"pkg": "root", "fn": "vfH_C14_Sweep", "params": {"rewrite": 1, "ticks": 1, "pre": 1}, "tiers": T, "fallback": "cvc5-int,z3-new", "short_ms": 1000},
   {"pkg": "root", "fn": "vfH_C14_Sweep", "params": {"rewrite": 1, "ticks": 1, "pre": 1, "preempt": 3}, "tiers": Q, "fallback": "cvc5-int,z3-new", "short_ms": 1000},
   {"pkg": "root", "fn": "vfH_C14_Sweep", "params": {"rewrite": 1, "ticks": 2, "pre": 0, "ttl_ms": 6000}, "tiers": T, "fallback": "cvc5-int,z3-new", "short_ms": 1000},
@@ -250,8 +257,9 @@ specs["C14"] = dict(prefixes=["C14.", "no-panic", "no-deadlock"], runs=[
  assumptions=A_CACHE + ["small-clock encoding (instants = fixed base + 8-bit seconds + nanoseconds)", "the ticker may fire at any scheduling point, at most the stated number of times"])
 
 specs["C16"] = dict(prefixes=["C16.", "no-panic"], runs=[
-  {"pkg": "z", "fn": "vfH_C16_Reopen", "params": {"prefix": 5, "ops": 1, "menu": 2, "after": 1}, "tiers": QT},
+  {"pkg": "z", "fn": "vfH_C16_Reopen", "params": {"prefix": 5, "ops": 1, "menu": 2, "after": 0}, "tiers": QT},
   {"pkg": "z", "fn": "vfH_C16_Reopen", "params": {"prefix": 5, "ops": 1, "menu": 2, "after": 1, "recipe": 1}, "tiers": QT},
+  {"pkg": "z", "fn": "vfH_C16_Reopen", "params": {"prefix": 5, "ops": 1, "menu": 2, "after": 2}, "tiers": T},
   {"pkg": "z", "fn": "vfH_C16_Reopen", "params": {"prefix": 4, "ops": 2, "menu": 3, "after": 1}, "tiers": T},
   {"pkg": "z", "fn": "vfH_C16_Reopen", "params": {"prefix": 9, "ops": 1, "menu": 2, "after": 1, "recipe": 1}, "tiers": T},
   {"pkg": "z", "fn": "vfH_C16_Reopen", "params": {"prefix": 6, "ops": 1, "menu": 2, "after": 1, "pagesize": 96}, "tiers": T},
